@@ -313,7 +313,8 @@ def check_package(r, s, rng, fname, src, tdir, with_dir):
 
 
 def html_attr(u):
-    return u.replace('&', '&amp;').replace('"', '&quot;').replace('<', '&lt;').replace('>', '&gt;') if False else u
+    # the flat HTML rendering writes destinations through the writer's escaping (image src too, since the repair of the raw src)
+    return u.replace('&', '&amp;').replace('"', '&quot;').replace('<', '&lt;').replace('>', '&gt;')
 
 
 def squeeze(b):
